@@ -118,6 +118,7 @@ StepClauses(t, pre, ev) ==
   \* ---- property predicates on the implementation's own state and step ---------------------------------
      \cup Cl("Obs_TotalIsAvailPlusHoldMinusBorrowed", ob.totalOk)
      \cup Cl("Obs_Listings", ob.listingOk)
+     \cup Cl("Obs_LoanListings", ob.loanListingOk)
      \cup Cl("Obs_Grid", ob.offgrid = <<>>)
      \cup Cl("Obs_FeesOnlyInQuote", \A i \in 1..Len(ob.orders) : ~ob.orders[i].feeOther)
      \cup Cl("Obs_Remaining", \A i \in 1..Min2(Len(ob.orders), Len(I.orders)) :
